@@ -867,7 +867,9 @@ regp_recv(RegP *p, RPMaybeFrame *mf)
         return -EINVAL;
     }
 
-    int rc = parse_frame(&cs.buffer);
+    /* An empty frame never made the sink allocate: there is nothing to parse,
+     * which is a frame shorter than a header. */
+    int rc = (cs.buffer.data == NULL) ? -EBADMSG : parse_frame(&cs.buffer);
 
     if (rc < 0) {
         mf->error.id = -rc;
